@@ -18,6 +18,8 @@ func init() { register("C06", checkC06) }
 func checkC06(c *chk.Ctx) {
 	h := newH(c)
 	c.Decided = []string{
+		"R06i every DB a controller opens (constructor, re-open in NewTerm, snapshot installation) is given the notification setting of the term before the function succeeds: whether batches are recorded is part of the replicated state",
+		"R06h once an entry is committed the leader applies it on every path of the commit continuation, as every follower does",
 		"R06a nothing reachable from applying a logged request reads the clock, random sources, the environment or generates ids",
 		"R06b the apply code reads no re-assignable package-level variable and only the frozen set of db fields",
 		"R06g the leader applies every committed entry: a request popped from the commit queue always gets its success continuation (never an error that depends on the caller's context)",
@@ -37,6 +39,8 @@ func checkC06(c *chk.Ctx) {
 	ruleR06d(h)
 	ruleR06e(h)
 	ruleCommittedContinuationsSucceed(h, "R06g")
+	ruleCommittedEntryAlwaysApplied(h, "R06h")
+	ruleR06i(h)
 	ruleReusedDecodeTargetReset(h, "R06f")
 }
 
@@ -599,5 +603,80 @@ func ruleAppliedOffsetProvenance(h *H, rule string) {
 			}
 			h.Bad(rule, name, h.pos(w.Instr), "the applied commit offset is assigned from "+ir.Describe(w.Val))
 		}
+	}
+}
+
+// ruleR06i: kv.NewDB starts with notifications enabled; whether a shard records them is an
+// option of the term. A controller that opens a DB and goes on to apply entries without
+// telling it the term's setting records batches its peers do not (or the reverse).
+func ruleR06i(h *H) {
+	const rule = "R06i"
+	h.Rule(rule, "K1", "in package server every path from a kv.NewDB call to a return, along which no error check failed, passes DB.EnableNotifications", 2)
+	newDB := ir.Callee{Pkg: "server/kv", Recv: "", Name: "NewDB"}
+	enable := ir.Callee{Pkg: "server/kv", Recv: "DB", Name: "EnableNotifications"}
+	n := 0
+	// the places where a controller obtains a freshly opened DB: the kv.NewDB calls, or the
+	// calls of a private helper that opens one and hands it back
+	type openPoint struct {
+		Fn   *ssa.Function
+		Call ssa.CallInstruction
+	}
+	var opens []openPoint
+	var expand func(fn *ssa.Function, call ssa.CallInstruction, depth int)
+	expand = func(fn *ssa.Function, call ssa.CallInstruction, depth int) {
+		res := fn.Signature.Results()
+		handsBack := false
+		for i := 0; i < res.Len(); i++ {
+			if ir.TypeIs(res.At(i).Type(), "server/kv", "DB") {
+				handsBack = true
+			}
+		}
+		if sites := ir.StaticCallSites(fn); handsBack && len(sites) > 0 && depth < 2 && len(h.P.CallsIn(fn, enable)) == 0 {
+			h.Fn(ir.FuncName(fn))
+			for _, cs := range sites {
+				expand(cs.Parent(), cs, depth+1)
+			}
+			return
+		}
+		opens = append(opens, openPoint{fn, call})
+	}
+	for _, s := range h.P.AllCalls(ir.InPkg("server"), newDB) {
+		expand(s.Fn, s.Call, 0)
+	}
+	for _, s := range opens {
+		fn := s.Fn
+		n++
+		h.Fn(ir.FuncName(fn))
+		// the success paths: no `err != nil` branch taken
+		blocked := map[ir.Edge]bool{}
+		ir.Instrs(fn, func(in ssa.Instruction) {
+			ci, ok := in.(ssa.CallInstruction)
+			if !ok {
+				return
+			}
+			if ev := ir.ErrResult(ci); ev != nil {
+				for _, t := range ir.NilTests(ev) {
+					blocked[ir.Edge{From: t.If.Block(), To: t.NonNil}] = true
+				}
+			}
+		})
+		isEnable := func(in ssa.Instruction) bool {
+			c := ir.CallOf(in)
+			return c != nil && h.P.Matches(c, enable)
+		}
+		bad := ""
+		var w []int
+		ir.Instrs(fn, func(in ssa.Instruction) {
+			if _, isRet := in.(*ssa.Return); isRet && bad == "" && in.Block() != fn.Recover {
+				if r, path := ir.Reach(ir.Search{From: s.Call, Blocked: blocked, Barrier: isEnable}, ir.Is(in)); r {
+					bad = "a DB is opened and the function succeeds without DB.EnableNotifications(term options): the replica records (or omits) notification batches contrary to the term's setting, so replicas with the same committed prefix hold different batches"
+					w = path
+				}
+			}
+		})
+		h.Verdict(bad == "", rule, fmt.Sprintf("DB opened #%d in %s", n, ir.FuncName(fn)), h.pos(s.Call), "the term's notification setting is applied before the function succeeds", bad, witness(w))
+	}
+	if n == 0 {
+		h.Anchor(rule, "kv.NewDB calls in package server")
 	}
 }
